@@ -44,8 +44,8 @@ func runWalk(c *Ctx) {
 		}
 	}
 	guardedByRedefine := func(b *ssa.BasicBlock) bool {
-		for _, l := range core.Lits(core.Guards(b)) {
-			if l.Kind == "bool" && l.Pol && l.Of == ssa.Value(redefineP) {
+		for _, l := range p.ILits(b) {
+			if l.Kind == "bool" && l.Pol && (l.Of == ssa.Value(redefineP) || p.Bind(l.Of) == ssa.Value(redefineP)) {
 				return true
 			}
 		}
